@@ -479,7 +479,7 @@ class Calls:
     def _apply_contract(self, con, f: VFunc, self_sv, args, kwargs, st, node, vararg=None):
         th = self.th
         base_sig = self.sidecar.signatures.get(con.key)
-        if base_sig is not None and not self.spec_mode:
+        if base_sig is not None and not self.spec_mode and f.node.args.kwarg is None:
             extra = [k_ for k_ in kwargs if k_ not in base_sig]
             if extra:
                 # the call passes a parameter the callee's contract was not written for
